@@ -27,11 +27,16 @@ def _atoms(stdout):
 
 
 def _closed_model(run):
+    import concurrent.futures as cf
     workers = 4 if run.tier == "quick" else 8
-    r = run.closed_model("Drift", MC[run.tier], workers=workers, coverage=True, timeout=3000, heap="6g")
-    if r.coverage_zero:
-        raise vlib.InfraError("vacuous closed model, actions never taken: %s" % sorted(set(r.coverage_zero)))
-    res = dc.tlc_parallel(run, ["Drift_Weak_%s.cfg" % w for w in sorted(dc.WEAK)], par=5, workers=2)
+    with cf.ThreadPoolExecutor(max_workers=1) as ex:    # the spec mutations run beside the exhaustive check
+        fut = ex.submit(dc.tlc_parallel, run, ["Drift_Weak_%s.cfg" % w for w in sorted(dc.WEAK)], 5, 2)
+        r = run.closed_model("Drift", MC[run.tier], workers=workers, coverage=True, timeout=3000, heap="6g")
+        if r.coverage_zero:
+            raise vlib.InfraError("vacuous closed model, actions never taken: %s" % sorted(set(r.coverage_zero)))
+        if run.tier == "thorough":
+            r2 = run.closed_model("Drift", "Drift_MC2.cfg", workers=workers, coverage=False, timeout=3000, heap="6g")
+        res = fut.result()
     for w, expect in sorted(dc.WEAK.items()):
         violated, distinct, wall = res["Drift_Weak_%s.cfg" % w]
         if violated not in expect:
@@ -104,6 +109,11 @@ def check(run):
         stats["creates_refused"] += t["create_failed"]      # e.g. minValues on a custom key: the scheduler opens nothing
     if stats["drift_reconciles_judged"] < 200 or stats["traces_with_drifted_claim"] < 20 or stats["creates_refused"] * 4 > stats["claims_created"]:
         raise vlib.InfraError("behaviours too shallow: %s" % dict(stats))
+    late = sum(t["late_drifted"] for t in info)
+    if late:
+        run.notes.append("observation (not judged, schedules are outside the quantifier): in %d stale-annotation behaviours a NodeClaim created from an "
+                         "edited pool BEFORE the hash controller refreshed the pool's annotation was reported NodePoolDrifted by the first drift "
+                         "reconcile and cleared by the one after the hash reconcile" % late)
     run.extra_cov["world"] = dict(stats)
     run.extra_cov["behaviours"] = {"tlc_simulated": len(sims), "systematic": len(behs) - len(sims)}
     import time
